@@ -50,3 +50,8 @@ cls("IterateShardBase", dataset_structure="ref:DatasetStructure", process_record
 cls("IterateShardNP", base="IterateShardBase", _kind="npz")
 cls("IterateShardFlatBuffer", base="IterateShardBase", _kind="fb")
 cls("IterateShardTFRec", base="IterateShardBase", from_tfrecord="optfunc", num_parallel_calls="int", _kind="tfrec")
+
+cls("RustIter", can_iterate="bool", nenter="int", nexit="int")
+cls("RustGenerator", _rust_iter="optref:RustIter", _dataset="ref:DatasetIteration", _split="U",
+    _process_record="optfunc", _shards="opt:int", _shard_filter="optfunc", _repeat="bool",
+    _file_parallelism="int", _shuffle="int", _to_dict="func")
